@@ -34,7 +34,7 @@ from pathlib import Path
 
 from ..astx import call_name, calls, dotted, enclosing_stmt, expand, facts_at, kwarg, last
 from ..cfg import CFG
-from ..index import AnchorError, FuncNode, Module, Repo, _set_parents, ancestors, enclosing_function, parent, walk_shallow
+from ..index import AnchorError, FuncNode, Module, Repo, _set_parents, walk_shallow
 from ..selftest import Twin
 
 EXPLANATION = (
